@@ -1,6 +1,7 @@
 package main
 
 import (
+	"slices"
 	"fmt"
 	"go/ast"
 	"go/token"
@@ -622,7 +623,24 @@ func checkResetSpec(p *Prog, r *Result, pkg *packages.Package, spec resetSpec) {
 func checkSiblingEntries(p *Prog, r *Result, pkg *packages.Package) {
 	info := pkg.TypesInfo
 	parserT := lookupType(pkg, "Parser")
-	seq := func(fd *ast.FuncDecl) []string {
+	declsByObj := newFuncGraphs(pkg)
+	// a helper whose body is a straight line of simple statements stands for the calls it makes
+	straightLine := func(fn *types.Func) *ast.FuncDecl {
+		hd := declsByObj.decls[fn.Origin()]
+		if hd == nil || hd.Body == nil {
+			return nil
+		}
+		for _, st := range hd.Body.List {
+			switch st.(type) {
+			case *ast.ExprStmt, *ast.IncDecStmt, *ast.AssignStmt:
+			default:
+				return nil
+			}
+		}
+		return hd
+	}
+	var seqDepth func(fd *ast.FuncDecl, depth int) []string
+	seqDepth = func(fd *ast.FuncDecl, depth int) []string {
 		var out []string
 		ast.Inspect(fd.Body, func(n ast.Node) bool {
 			c, ok := n.(*ast.CallExpr)
@@ -638,12 +656,19 @@ func checkSiblingEntries(p *Prog, r *Result, pkg *packages.Package) {
 				if name == "stmtList" {
 					name = "stmts"
 				}
+				if hd := straightLine(fn); hd != nil && depth < 3 {
+					if inner := seqDepth(hd, depth+1); len(inner) > 0 {
+						out = append(out, inner...)
+						return true
+					}
+				}
 				out = append(out, name)
 			}
 			return true
 		})
 		return out
 	}
+	seq := func(fd *ast.FuncDecl) []string { return seqDepth(fd, 0) }
 	a, b := p.FuncDecl("syntax", "Parser.Parse"), p.FuncDecl("syntax", "Parser.StmtsSeq")
 	if a == nil || b == nil {
 		r.Fatalf("anchors Parser.Parse / Parser.StmtsSeq not found")
@@ -666,7 +691,10 @@ func checkSiblingEntries(p *Prog, r *Result, pkg *packages.Package) {
 			if !isCall {
 				return true
 			}
-			if fn := calleeOf(info, c); fn != nil && fn.Name() == "doHeredocs" {
+			if fn := calleeOf(info, c); fn != nil && (fn.Name() == "doHeredocs" || func() bool {
+				hd := straightLine(fn)
+				return hd != nil && slices.Contains(seqDepth(hd, 1), "doHeredocs")
+			}()) {
 				for _, a := range positiveAtoms(enclosingConds(file, c)) {
 					if be, ok2 := ast.Unparen(a).(*ast.BinaryExpr); ok2 && be.Op == token.EQL && isNilIdent(info, be.Y) {
 						if fv := selectorField(info, be.X); fv != nil && fv.Name() == "err" {
@@ -792,7 +820,7 @@ var c08Controls = []Control{
 	{Name: "entry-writes-before-reset", Rule: "R08b", WantKey: "Document#reset first", File: "syntax/parser.go",
 		Mutate: ctlReplace("Parser.Document", "p.reset()", "p.parsingDoc = true\n\tp.reset()", 0)},
 	{Name: "stmtsseq-drops-heredoc-epilogue", Rule: "R08c", WantKey: "same call sequence", File: "syntax/parser.go",
-		Mutate: ctlReplace("Parser.StmtsSeq", "if p.err == nil {\n\t\t\t// EOF immediately after heredoc word so no newline to\n\t\t\t// trigger the parsing error.\n\t\t\tp.doHeredocs()\n\t\t}", "", 0)},
+		Mutate: ctlReplaceAnywhere("\t\t\tp.openNodes++\n\t\t\tp.doHeredocs()\n\t\t\tp.openNodes--\n", "")},
 	{Name: "openNodes-early-return", Rule: "R08d", WantKey: "wordParts#openNodes++", File: "syntax/parser.go",
 		Mutate: ctlReplace("Parser.wordParts", "p.openNodes--", "if n == nil && len(wps) == 0 {\n\t\t\treturn nil\n\t\t}\n\t\tp.openNodes--", 0)},
 }
